@@ -205,6 +205,22 @@ fn c09_body<T: BaseFloat>(i: &[f64]) -> Vec<T> {
     push3(&mut o, dq.transform_point(Point3::from_vec(v)).to_vec());
     let m2 = Matrix2::look_at(Vector2::new(d.x, d.y + t(5.0)), Vector2::new(up.x, up.y));
     o.extend_from_slice(&[m2.x.x, m2.x.y, m2.y.x, m2.y.y]);
+    // the usual call pattern: a direction normalised in the type at hand (its squared length is
+    // then exactly 1 in roughly every other case) and a coordinate axis as `up`
+    let dn = d.normalize();
+    let axis = if i[7].abs() >= i[6].abs() { Vector3::unit_y() } else { Vector3::unit_z() };
+    if dn.cross(axis).magnitude2() > t(0.05) {
+        push_m4(&mut o, Matrix4::look_to_rh(eye, dn, axis));
+        push_m4(&mut o, Matrix4::look_to_lh(eye, dn, axis));
+        push_m3(&mut o, Matrix3::look_to_lh(dn, axis));
+        push3(&mut o, <Quaternion<T> as Rotation>::look_at(dn, axis) * v);
+        let un = up.normalize();
+        push_m4(&mut o, Matrix4::look_to_rh(eye, dn, un));
+    } else {
+        for _ in 0..(16 * 3 + 9 + 3) {
+            o.push(T::zero());
+        }
+    }
     o
 }
 twin_driver!(c09, "c09_look_at", 5e-4, 12, c09_gen, c09_body);
